@@ -1,6 +1,7 @@
 package main
 
 import (
+	"fmt"
 	"go/types"
 	"sort"
 	"strings"
@@ -518,4 +519,105 @@ func isFreshBase(v ssa.Value) bool {
 		return isFreshAlloc(a)
 	}
 	return false
+}
+
+// ---- re-entrant acquisition ---------------------------------------------------------
+//
+// sync.Mutex and sync.RWMutex are not re-entrant: a method that holds its receiver's
+// lock (even the read lock: a writer queued in between blocks the second RLock while
+// it waits for the first to be released) must not call a method of the same receiver
+// that acquires that lock again.
+
+// acquiresOwnLock: lock ids f acquires on its own receiver (directly, or through a method of the
+// same receiver it calls while not holding the lock), up to a small depth.
+func (p *Program) acquiresOwnLock(f *ssa.Function, depth int, busy map[*ssa.Function]bool) map[string]bool {
+	out := map[string]bool{}
+	if f == nil || len(f.Blocks) == 0 || f.Signature.Recv() == nil || depth > 2 || busy[f] {
+		return out
+	}
+	busy[f] = true
+	defer delete(busy, f)
+	eachInstr(f, func(in ssa.Instruction) {
+		if _, isDefer := in.(*ssa.Defer); isDefer {
+			return
+		}
+		if _, isGo := in.(*ssa.Go); isGo {
+			return
+		}
+		cc := callCommon(in)
+		if cc == nil {
+			return
+		}
+		if id, op := p.lockOp(cc); op == "Lock" || op == "RLock" {
+			if fa, ok := cc.Args[0].(*ssa.FieldAddr); ok && p.TermOf(fa.X).IsParam(f, 0) {
+				out[id] = true
+			}
+			return
+		}
+		if g := cc.StaticCallee(); g != nil && g.Signature.Recv() != nil && len(cc.Args) > 0 && p.TermOf(cc.Args[0]).IsParam(f, 0) && p.inModuleFn(g) {
+			for id := range p.acquiresOwnLock(g, depth+1, busy) {
+				out[id] = true
+			}
+		}
+	})
+	return out
+}
+
+func (p *Program) inModuleFn(f *ssa.Function) bool {
+	return f != nil && f.Pkg != nil && p.inModule(f.Pkg.Pkg.Path())
+}
+
+func reentrantLocks(c *Ctx, rule string, pkgs []string) {
+	p := c.P
+	inPkgs := map[*ssa.Package]bool{}
+	for _, pk := range pkgs {
+		if sp := p.SSAPkg[modPkg(pk)]; sp != nil {
+			inPkgs[sp] = true
+		}
+	}
+	n, bad := 0, 0
+	for _, fn := range p.ModFuncs {
+		if !inPkgs[fn.Pkg] || !p.Production(fn) || fn.Signature.Recv() == nil || fn.Parent() != nil {
+			continue
+		}
+		fn := fn
+		li := p.Locksets(fn)
+		// ids of locks fn takes on its own receiver
+		own := map[string]bool{}
+		eachInstr(fn, func(in ssa.Instruction) {
+			cc := callCommon(in)
+			if id, op := p.lockOp(cc); op == "Lock" || op == "RLock" {
+				if fa, ok := cc.Args[0].(*ssa.FieldAddr); ok && p.TermOf(fa.X).IsParam(fn, 0) {
+					own[id] = true
+				}
+			}
+		})
+		if len(own) == 0 {
+			continue
+		}
+		n++
+		eachInstr(fn, func(in ssa.Instruction) {
+			if _, isGo := in.(*ssa.Go); isGo {
+				return
+			}
+			cc := callCommon(in)
+			if cc == nil {
+				return
+			}
+			g := cc.StaticCallee()
+			if g == nil || g.Signature.Recv() == nil || len(cc.Args) == 0 || !p.inModuleFn(g) || !p.TermOf(cc.Args[0]).IsParam(fn, 0) {
+				return
+			}
+			held := li.before[in]
+			for id := range p.acquiresOwnLock(g, 0, map[*ssa.Function]bool{}) {
+				if own[id] && held[id] > 0 {
+					bad++
+					c.Fail(rule, funcName(fn)+":reentrant:"+g.Name(), in.Pos(), fmt.Sprintf("%s is called on the same receiver while %s is held, and it acquires %s again: sync locks are not re-entrant (with the read lock held, a writer queued in between blocks the inner RLock for ever, and with it every later reader and the apply path)", g.Name(), id, id))
+				}
+			}
+		})
+	}
+	if bad == 0 {
+		c.Ok(rule, "no-reentrant-acquisition", 0, fmt.Sprintf("%d lock-taking methods; none calls a method of the same receiver that takes the lock again", n))
+	}
 }
